@@ -21,6 +21,7 @@ FIXED = [
     (["C18"], "return-value-differs (carriage return translated)", "55136a7", "zerv.render('2!1.0.post1', output_template='a\rb') returned 'a\nb', the command line prints 'a\rb' (subprocess text mode)"),
     (["C15"], "function-ignores-argument", "799838d", "hash_int(value=bumped_branch, length='3') returned 7 characters; prefix(value=x, length=-1) returned 10; sanitize(max_length=4.0) did not cut (ill-typed length silently replaced by the default)"),
     (["C11"], "pep440-order-differs (numeric local part above u32)", "4178de6", "cmp('0rc0.dev0+5000000000', '0rc0.dev0+10000000000') = Greater: all-digit local parts above u32 were kept as text (fix 35b8d11) and compared as text"),
+    (["C15", "C07"], "template-pep440-differs (numbers above u32)", "7662a0a", "--output-format pep440 refuses post = 4294967296 but --output-template '{{ pep440 }}' printed '1.2.3rc0' / '4294967295!11506.2a26957+5000000000...' (the range check of 369acaa covered the formatter only)"),
     (["C13"], "panic@library/std/src/env.rs", "79a9ee3", "an argument that is not valid UTF-8 (`zerv check $'a\\xffb'`, `--bumped-branch $'\\xff'`) panicked in std::env::args() (exit 101)"),
     (["C13", "C15"], "panic@src/cli/utils/template/functions.rs:prefix", "c28a0f0", "prefix(value='ééééé', length=3) panicked (byte slice)"),
     (["C13", "C15"], "panic@src/cli/utils/template/functions.rs:format_timestamp", "af6e9ec", "format_timestamp(value=.., format='%Q') panicked (chrono Display error)"),
